@@ -537,7 +537,19 @@ def compile(
 
     assert compiler is not None
 
-    if (
+    # A list or tuple of already-typed inputs is a sequence of inputs, even
+    # when numpy could stack it into something that looks like one input
+    # (e.g. [state] or a full basis of states, which stacks to a unitary).
+    typed_sequence = (
+        isinstance(input, (list, tuple))
+        and len(input) > 0
+        and all(
+            isinstance(i, (Circuit, UnitaryMatrix, StateVector, StateSystem))
+            for i in input
+        )
+    )
+
+    if typed_sequence or (
         is_iterable(input)
         and not isinstance(input, Circuit)
         and not UnitaryMatrix.is_unitary(input)
